@@ -545,6 +545,57 @@ def ca_check_unavoidable(chk):
                       '(e.g. one without an extensions field) is accepted as an issuing CA' % (w, g.pc), key=R)
 
 
+def min_rsa_size_signed(chk):
+    """br_x509_minimal_set_minrsa(ctx, bytes) stores bytes - 128 in an int16_t: a minimum below 128 bytes (1024 bits) is a negative
+    number.  The bytecode reads context fields with the unsigned get16 accessor, so the threshold it compares the modulus length with
+    must be brought back to 16 bits after the + 128 - otherwise a 64-byte minimum becomes a 65600-byte one and every RSA certificate
+    is refused as BR_ERR_X509_WEAK_PUBLIC_KEY.  The arithmetic that follows the read of min_rsa_size is cut out as a snippet word and
+    evaluated by constant propagation for stored values -64, -28, 0, 128, 384."""
+    import collections
+    R = 'x509-min-rsa-threshold'
+    P = t0.Program('x509_minimal')
+    o_f = P.layouts.field(P.ctxname, 'min_rsa_size')[0]
+    sites = []
+    for w, W in P.words.items():
+        l = list(W.ins.values())
+        for k, i in enumerate(l):
+            if i.kind == 'call' and P.const_word_value(i.arg) == o_f and k + 1 < len(l) and l[k + 1].kind == 'native' and l[k + 1].name == 'get16':
+                sites.append((W, k))
+    if len(sites) != 1:
+        raise AnalysisBroken('x509_minimal: reader of min_rsa_size not identified (%d sites)' % len(sites))
+    W, k = sites[0]
+    l = list(W.ins.values())
+    body = []
+    for i in l[k:]:
+        pure = i.kind == 'const' or (i.kind == 'native' and i.name in ('get16', '+', '-', 'and', 'or', 'xor', '<<', '>>', 'neg', 'not')) or \
+            (i.kind == 'call' and P.const_word_value(i.arg) is not None)
+        if not pure:
+            break
+        body.append(i)
+    BIG = 1 << 20
+    for v in (-64, -28, 0, 128, 384):
+        ins = collections.OrderedDict()
+        for i in body:
+            ins[i.pc] = i
+        last = body[-1]
+        ins[last.next] = t0.Ins(last.next, 'ret', None, last.next + 1)
+        wid = max(P.words) + 1
+        P.words[wid] = t0.Word(wid, 0, ins)
+        try:
+            I = t0ai.Interp(P, field_ranges={o_f: (v & 0xFFFF, v & 0xFFFF)})
+            outs = I.run_word(wid, t0ai.St(), ())
+        finally:
+            del P.words[wid]
+        vals = set(o.rng(o.stack[-1]) for o in outs or [])
+        want = v + 128
+        inst = 'x509_minimal: stored minimum %d (set_minrsa(%d)) gives the threshold %d bytes' % (v, want, want)
+        if vals == {(want, want)}:
+            chk.ok(R, inst, P.src)
+        else:
+            chk.violation(R, inst, P.src, 'the value compared with the modulus length is %s: the signed field is read as unsigned and not reduced to 16 bits'
+                          % sorted(vals), key='%s %d' % (R, v))
+
+
 def err_writers(chk):
     """C stores to err: validation success (BR_ERR_X509_OK) is written only by the two trust natives"""
     u = build.load_unit(S)
@@ -596,6 +647,7 @@ def run(tier):
     calendar_table(chk)
     oid_table(chk)
     ca_check_unavoidable(chk)
+    min_rsa_size_signed(chk)
     from . import c11 as _c11
     oblig.run_obligations(chk, _c11.asn1_sig_obligations())
     _c11.decode_mod_covers_source(chk)
